@@ -1240,7 +1240,7 @@ fn families(ctx: &Ctx) -> Vec<Family> {
         Family { name: "spsc/mem", kind: Kind::Spsc, os: false, max_len: if q { 8 } else { 10 }, max_writers: 1, max_push: 4, max_empty: 2, write_fault_all: true },
         Family { name: "mpsc2/mem", kind: Kind::Mpsc, os: false, max_len: if q { 7 } else { 9 }, max_writers: 2, max_push: 4, max_empty: 1, write_fault_all: true },
         Family { name: "mpsc3/mem", kind: Kind::Mpsc, os: false, max_len: if q { 6 } else { 8 }, max_writers: 3, max_push: 4, max_empty: 1, write_fault_all: !q },
-        Family { name: "spsc/os", kind: Kind::Spsc, os: true, max_len: if q { 7 } else { 9 }, max_writers: 1, max_push: 4, max_empty: 1, write_fault_all: true },
+        Family { name: "spsc/os", kind: Kind::Spsc, os: true, max_len: if q { 8 } else { 10 }, max_writers: 1, max_push: 4, max_empty: 1, write_fault_all: true },
         Family { name: "mpsc2/os", kind: Kind::Mpsc, os: true, max_len: if q { 6 } else { 8 }, max_writers: 2, max_push: 4, max_empty: 1, write_fault_all: true },
     ]
 }
